@@ -8,6 +8,14 @@ NOTE = ('trusted: rustc MIR dump of the scratch copy; MIR semantics and library 
         'z3 verdicts (unknown = inconclusive, exit 2); reference semantics in /verif/mirsym/reference written from the property text')
 
 CLAIMED = {
+    'C03': dict(text='The five real parsers (all of parser.rs from MIR) executed over every stream of exactly K symbolic tokens, K = 0..3 (thorough 4), over the complete token vocabulary: the set of accepted token sequences equals the set the reference grammar accepts (both directions) and the trees agree; plus the tokenizers on every string of 0..2 characters.',
+                ref='DESIGN.md section 6 C03'),
+    'C04': dict(text='The real parsers over template token streams X op Y op Z (every binary/postfix operator, optional prefix signs and `!`, every bracket kind around every sub-sequence): every accepted sequence yields exactly the tree of the reference operator-precedence grammar (precedence, left associativity, bracket overriding).',
+                ref='DESIGN.md section 6 C04'),
+    'C12': dict(text='The real parsers over juxtaposition templates (left factor: number, group, floor group, call, factorial; every possible following token; up to 3 (thorough 4) more tokens; five syntactic contexts): products are built exactly after the trigger tokens, R is parsed above the multiplicative level, everything else is rejected.',
+                ref='DESIGN.md section 6 C12'),
+    'C14': dict(text='The public eval_* functions from the MIR of mod.rs on `@`, `(@)`, `+@`, `((@))` with a fully symbolic placeholder return exactly the placeholder; in the parser every `@` leaf of every accepted template stream is the placeholder term itself and `@` never joins an implicit product.',
+                ref='DESIGN.md section 6 C14'),
     'C05': dict(text='Every arithmetic node of eval_f64 (one node and two nested nodes, leaves = arbitrary doubles) is shown by z3 to apply the IEEE/libm operation of the same meaning to its operands in order and never to return Err; bounded by tree shape, not by operand values.',
                 ref='DESIGN.md section 6 C05'),
     'C06': dict(text='Every integer node of eval_i64 is executed symbolically on arbitrary i64 operands from the MIR built with and without overflow checks; z3 (Int theory) shows Ok(v) implies v is the exact result and overflow / zero divisor / bad shift count give Err, never a panic or a wrapped value. Exponent case split 0..64 (quick 0..12), n! for n <= 25.',
